@@ -61,14 +61,34 @@ class SimSocket(object):
     def readable(self):
         return bool(self.segments) or self.peer_closed or self.broken
 
-    def recv(self, n):
+    def recv(self, n, flags=0):
         if self.closed:
             raise OSError(9, 'Bad file descriptor')
         self.sim.point('recv')
         if self.broken:
             raise ConnectionResetError(104, 'Connection reset by peer')
+        peek, waitall, dontwait = flags & 0x2, flags & 0x100, flags & 0x40
         if not self.readable():
+            if dontwait or self.timeout == 0.0:
+                raise BlockingIOError(11, 'Resource temporarily unavailable')
             self.sim.blocking_recv()
+        if peek:
+            self.sim.idle = 0
+            return bytes(self.segments[0][:n]) if self.segments else b''
+        out = self._take(n)
+        # MSG_WAITALL on a blocking socket waits for all n bytes (or the end of the stream); on a socket in time-out
+        # mode it returns early with what is there
+        while waitall and self.timeout is None and n and len(out) < n and not self.broken:
+            if not self.segments:
+                if self.peer_closed:
+                    break
+                self.sim.blocking_recv()
+                if not self.segments:
+                    break
+            out += self._take(n - len(out))
+        return out
+
+    def _take(self, n):
         if self.segments:
             seg = self.segments[0]
             if n is not None and 0 < n < len(seg):
@@ -106,7 +126,23 @@ class SimSocket(object):
         self.nsends += 1
         self.sim.log.append(('send', bytes(data)))
 
-    send = sendall
+    def send(self, data, flags=0):
+        """Like sendall on a blocking socket.  On a socket in time-out mode the kernel takes what fits: with the
+        scenario's `sndbuf` set, at most that many bytes per call - the count is returned."""
+        data = bytes(data)
+        if self.timeout is not None and self.sim.sndbuf and len(data) > self.sim.sndbuf:
+            data = data[:self.sim.sndbuf]
+        self.sendall(data)
+        return len(data)
+
+    def sendmsg(self, buffers, ancdata=(), flags=0, address=None):
+        return self.send(b''.join(bytes(b) for b in buffers), flags)
+
+    def getpeername(self):
+        return self.connected_to or ('192.0.2.7', 50104)
+
+    def getsockname(self):
+        return ('192.0.2.1', 104 if self.sim.role == 'acceptor' else 40000)
 
     def close(self):
         if not self.closed:
@@ -118,7 +154,11 @@ class SimSocket(object):
         self.sim.log.append(('connect', addr))
 
     def shutdown(self, how):
-        pass
+        if self.closed:
+            raise OSError(9, 'Bad file descriptor')
+        if self.sim.shutdown_fault:
+            # (what Linux reports once the peer has reset the connection)
+            raise OSError(107, 'Transport endpoint is not connected')
 
     def settimeout(self, t):
         self.timeout = t
@@ -146,12 +186,18 @@ class _FakeSocketModule(object):
     SOCK_STREAM = 1
     error = OSError
     timeout = TimeoutError
+    herror = __import__('socket').herror
+    gaierror = __import__('socket').gaierror
+    for _n in dir(__import__('socket')):
+        if _n.isupper() and isinstance(getattr(__import__('socket'), _n), int):
+            locals()[_n] = int(getattr(__import__('socket'), _n))
+    del _n
 
     def __init__(self, sim):
         self._sim = sim
 
     def socket(self, *a, **kw):
-        self._sim.sock.timeout = _DEFAULT_TIMEOUT[0]
+        self._sim.sock.timeout = self._sim.sock_timeout if self._sim.sock_timeout is not None else _DEFAULT_TIMEOUT[0]
         return self._sim.sock
 
     def create_connection(self, address, timeout=None, source_address=None, **kw):
@@ -331,7 +377,8 @@ class Sim(object):
     START_TIME = 1000.0
 
     def __init__(self, role, actions, max_pdu=65536, budget=20000, store_in_file=frozenset(),
-                 get_file_cb=None, accepted_contexts=None, write_fault=None, stall_write=None, stall_seconds=11.5):
+                 get_file_cb=None, accepted_contexts=None, write_fault=None, stall_write=None, stall_seconds=11.5,
+                 sock_timeout=None, sndbuf=None, shutdown_fault=False):
         self.role = role
         self.stopped_at = None
         self._last_log, self._stale = -1, 0
@@ -341,6 +388,9 @@ class Sim(object):
         self.stall_write = stall_write        # index of the write during which the peer pauses reading
         self.stall_seconds = stall_seconds
         self.write_fault = write_fault    # index of the first write on the transport that fails (None: never)
+        self.sndbuf = sndbuf              # bytes a send() takes at most when the socket is in time-out mode
+        self.shutdown_fault = shutdown_fault    # shutdown() fails with ENOTCONN
+        self.sock_timeout = sock_timeout  # the socket is in time-out mode from the start (socket.setdefaulttimeout)
         self.actions = list(actions)
         self.next = 0
         self.now = self.START_TIME
@@ -353,6 +403,8 @@ class Sim(object):
         self.finished = False
         self.killed_by_script = False
         self.sock = SimSocket(self)
+        if sock_timeout is not None:
+            self.sock.timeout = sock_timeout
         self.provider = None
         self.max_pdu = max_pdu
         self.store_in_file = store_in_file
